@@ -154,7 +154,7 @@ class GradSampleModuleFastGradientClipping(GradSampleModule):
     ):
         if (
             not requires_grad(module)
-            or not module.training
+            or not self.training
             or not torch.is_grad_enabled()
             or not self.hooks_enabled
         ):
